@@ -21,7 +21,7 @@ def gen(tier, seed):
             ["pre: 0 <= s < %d and 0 <= n < %d and 0 <= i < %d" % (ns, nsamp, nc)],
             "point / per-sample / per-cell / whole-state / merged accessors and direct indexing read entry sample*S*C + species*C + cell (shape %d x %d x %d on %s; species by index, label and object)" % (nsamp, ns, nc, kind),
             "s: int, n: int, i: int", timeout=240)
-    for kind, nsamp, ns, (w, h, d) in (("g321", 2, 3, (3, 2, 1)), ("g211", 3, 2, (2, 1, 1))) + ((("g223", 2, 3, (2, 2, 3)),) if tier != "quick" else ()):
+    for kind, nsamp, ns, (w, h, d) in (("g321", 2, 3, (3, 2, 1)), ("g211", 3, 2, (2, 1, 1)), ("g132", 2, 3, (1, 3, 2))) + ((("g223", 2, 3, (2, 2, 3)),) if tier != "quick" else ()):
         add("coords_%s" % kind, "c17-coords", "coords_consistent(%r, %d, s, n, x, y, z)" % (kind, nsamp),
             ["pre: 0 <= s < %d and 0 <= n < %d and 0 <= x < %d and 0 <= y < %d and 0 <= z < %d" % (ns, nsamp, w, h, d)],
             "cells addressed by (x,y,z) read the same entry as by linear index (%s)" % kind, "s: int, n: int, x: int, y: int, z: int", timeout=240)
